@@ -336,6 +336,8 @@ def write_evidence(check, tier, seed, agg, n_viol, extra_cov=None):
         'simulated_seconds': round(agg['sim_time'], 3),
         'scheduler_steps': agg['steps'],
         'distinct_event_logs': len(agg['digests']),
+        'event_log_set_digest': hashlib.sha256(
+            ''.join(sorted(agg['digests'])).encode()).hexdigest()[:16],
         'distinct_interleavings': len(agg['switch_digests']),
         'distinct_scenario_shapes': len(agg['shapes']),
         'faults_fired': dict(sorted(agg['faults'].items())),
